@@ -56,6 +56,10 @@ func genC13(r *Rand, tier string, ord int) *Trial {
 				all.Seqs[i] = string(b)
 			}
 		}
+		if k := r.Intn(len(all.Names)); k > 0 && r.P(0.4) { // the reference record need not come first in a file
+			all.Names[0], all.Names[k] = all.Names[k], all.Names[0]
+			all.Seqs[0], all.Seqs[k] = all.Seqs[k], all.Seqs[0]
+		}
 		c = &Case{Cmd: "variants", Files: map[string]string{"msa": all.FASTA(genLayout(r))}}
 		c.Opts.RefID = "ref"
 		if form == "variants-gb" {
